@@ -344,6 +344,26 @@ func run(in string) string {
 		panic("bad case line")
 	}
 	switch f[1] {
+	case "sg", "ts", "ph", "cs":
+		// signing kinds run under the watchdog
+		var out string
+		var pv any
+		if !watchdog(func() {
+			defer func() { pv = recover() }()
+			out = runCase(f)
+		}) {
+			return "HANG"
+		}
+		if pv != nil {
+			panic(pv)
+		}
+		return out
+	}
+	return runCase(f)
+}
+
+func runCase(f []string) string {
+	switch f[1] {
 	case "sc":
 		a, b, g := uint32(atoi(f[3])), uint32(atoi(f[4])), uint32(atoi(f[5]))
 		r0, r1, ok := imldsa.VerifScalar(f[2], a, b, g)
@@ -575,6 +595,9 @@ func check(in, obs string) string {
 	if strings.HasPrefix(obs, "PANIC ") {
 		return "panic: " + obs
 	}
+	if obs == "HANG" {
+		return fmt.Sprintf("signing did not return within %v (rejection loop does not terminate)", signTimeout)
+	}
 	f := strings.Split(in, "|")
 	tag := f[len(f)-1]
 	switch f[1] {
@@ -692,6 +715,9 @@ func check(in, obs string) string {
 		}
 	case "sg":
 		p := setOf(f[2])
+		if obs == "HANG" {
+			return fmt.Sprintf("signing did not return within %v", signTimeout)
+		}
 		ctx := hx.UH(f[5])
 		if len(ctx) > 255 {
 			if obs != "err" {
